@@ -41,6 +41,10 @@ Proof.
   rewrite u32_be_val by exact H. reflexivity.
 Qed.
 
+Lemma read_mqtt_string_write_bytes : forall b r, len b <= 65535 -> utf8_valid b = true ->
+  read_mqtt_string (write_mqtt_bytes b ++ r) = Ok (b, r).
+Proof. exact read_mqtt_string_write. Qed.
+
 Definition value_ok (k : pkind) (v : pval) : Prop :=
   kind_matches k v = true /\ wf_value v = true /\
   match v with
@@ -49,36 +53,71 @@ Definition value_ok (k : pkind) (v : pval) : Prop :=
   | _ => True
   end.
 
-Lemma read_value_write : forall k v, value_ok k v ->
+Definition rv_spec (k : pkind) (v : pval) : Prop :=
   exists bs, value_bytes v = Ok bs /\ len bs = value_len v /\
              forall rest, read_value 0 k (bs ++ rest) = Ok (v, value_len v, rest).
+
+Lemma rv_byte : forall n, rv_spec KByte (VByte n).
 Proof.
-  intros k v (Hk & Hwf & Hu).
-  destruct v as [n | n | n | n | s | s | a b]; destruct k; cbn [kind_matches] in Hk; try discriminate;
-    cbn [wf_value] in Hwf; cbn [value_bytes value_len read_value].
-  - exists [n]. split; [reflexivity |]. split; [reflexivity |]. intros rest. cbn [app]. rewrite read_u8_cons. reflexivity.
-  - exists (u16_be n). split; [reflexivity |]. split; [reflexivity |]. intros rest.
-    rewrite read_u16_u16_be by lia. reflexivity.
-  - exists (u32_be n). split; [reflexivity |]. split; [reflexivity |]. intros rest.
-    rewrite read_u32_u32_be by lia. reflexivity.
-  - unfold MAX_REMAINING in Hwf.
-    destruct (length_write_remaining n [] ltac:(lia)) as (bs & Hw & Hl & _).
-    exists bs. split; [exact Hw |]. split; [exact Hl |]. intros rest.
-    destruct (length_write_remaining n rest ltac:(lia)) as (bs' & Hw' & _ & Hv).
-    assert (bs' = bs) by congruence. subst bs'.
-    rewrite Hv. cbn [bind]. rewrite <- Hl, advance_app. cbn [bind]. rewrite Hl. reflexivity.
-  - exists (write_mqtt_bytes s). split; [reflexivity |]. split; [apply len_write_mqtt_bytes |]. intros rest.
-    change (write_mqtt_bytes s) with (write_mqtt_string s).
-    rewrite read_mqtt_string_write; [reflexivity | apply str_ok_len; exact Hwf | exact Hu].
-  - exists (write_mqtt_bytes s). split; [reflexivity |]. split; [apply len_write_mqtt_bytes |]. intros rest.
-    rewrite read_mqtt_bytes_write; [reflexivity | apply str_ok_len; exact Hwf].
-  - apply andb_prop in Hwf. destruct Hwf as [Ha Hb]. destruct Hu as [Hua Hub].
-    exists (write_mqtt_bytes a ++ write_mqtt_bytes b). split; [reflexivity |].
-    split; [rewrite len_app, !len_write_mqtt_bytes; lia |]. intros rest.
-    rewrite <- app_assoc. change (write_mqtt_bytes a) with (write_mqtt_string a).
-    rewrite read_mqtt_string_write; [| apply str_ok_len; exact Ha | exact Hua]. cbn [bind].
-    change (write_mqtt_bytes b) with (write_mqtt_string b).
-    rewrite read_mqtt_string_write; [| apply str_ok_len; exact Hb | exact Hub]. reflexivity.
+  intros n. exists [n]. split; [reflexivity |]. split; [reflexivity |]. intros rest.
+  cbn [read_value app]. rewrite read_u8_cons. reflexivity.
+Qed.
+
+Lemma rv_u16 : forall n, n < 65536 -> rv_spec KU16 (VU16 n).
+Proof.
+  intros n H. exists (u16_be n). split; [reflexivity |]. split; [reflexivity |]. intros rest.
+  cbn [read_value]. rewrite read_u16_u16_be by exact H. reflexivity.
+Qed.
+
+Lemma rv_u32 : forall n, n < 4294967296 -> rv_spec KU32 (VU32 n).
+Proof.
+  intros n H. exists (u32_be n). split; [reflexivity |]. split; [reflexivity |]. intros rest.
+  cbn [read_value]. rewrite read_u32_u32_be by exact H. reflexivity.
+Qed.
+
+Lemma rv_varint : forall n, n <= 268435455 -> rv_spec KVarInt (VVarInt n).
+Proof.
+  intros n H. unfold rv_spec. cbn [value_bytes value_len read_value].
+  destruct (length_write_remaining n [] H) as (bs & Hw & Hl & _).
+  exists bs. split; [exact Hw |]. split; [exact Hl |]. intros rest.
+  destruct (length_write_remaining n rest H) as (bs' & Hw' & _ & Hv).
+  assert (bs' = bs) by congruence. subst bs'.
+  rewrite Hv. cbn [bind]. rewrite <- Hl, advance_app. cbn [bind]. rewrite Hl. reflexivity.
+Qed.
+
+Lemma rv_str : forall s, len s <= 65535 -> utf8_valid s = true -> rv_spec KStr (VStr s).
+Proof.
+  intros s Hl Hu. exists (write_mqtt_bytes s). split; [reflexivity |]. split; [apply len_write_mqtt_bytes |].
+  intros rest. cbn [read_value value_len]. rewrite read_mqtt_string_write_bytes by assumption. reflexivity.
+Qed.
+
+Lemma rv_bin : forall s, len s <= 65535 -> rv_spec KBin (VBin s).
+Proof.
+  intros s Hl. exists (write_mqtt_bytes s). split; [reflexivity |]. split; [apply len_write_mqtt_bytes |].
+  intros rest. cbn [read_value value_len]. rewrite read_mqtt_bytes_write by assumption. reflexivity.
+Qed.
+
+Lemma rv_pair : forall a b, len a <= 65535 -> len b <= 65535 -> utf8_valid a = true -> utf8_valid b = true ->
+  rv_spec KPair (VPair a b).
+Proof.
+  intros a b Ha Hb Hua Hub. exists (write_mqtt_bytes a ++ write_mqtt_bytes b). split; [reflexivity |].
+  split; [cbn [value_len]; rewrite len_app, !len_write_mqtt_bytes; lia |]. intros rest.
+  cbn [read_value value_len]. rewrite <- app_assoc.
+  rewrite read_mqtt_string_write_bytes by assumption. cbn [bind].
+  rewrite read_mqtt_string_write_bytes by assumption. reflexivity.
+Qed.
+
+Lemma read_value_write : forall k v, value_ok k v -> rv_spec k v.
+Proof.
+  intros k v (Hk & Hwf & Hu). destruct v as [n | n | n | n | s | s | a b]; cbn [wf_value] in Hwf.
+  - destruct k; try discriminate Hk. apply rv_byte.
+  - destruct k; try discriminate Hk. clear Hk Hu. apply rv_u16. apply N.ltb_lt in Hwf. exact Hwf.
+  - destruct k; try discriminate Hk. clear Hk Hu. apply rv_u32. apply N.ltb_lt in Hwf. exact Hwf.
+  - destruct k; try discriminate Hk. clear Hk Hu. apply rv_varint. apply N.leb_le in Hwf. exact Hwf.
+  - destruct k; try discriminate Hk. apply rv_str; [apply str_ok_len; exact Hwf | exact Hu].
+  - destruct k; try discriminate Hk. apply rv_bin. apply str_ok_len; exact Hwf.
+  - destruct k; try discriminate Hk. apply andb_prop in Hwf. destruct Hwf, Hu.
+    apply rv_pair; try (apply str_ok_len); assumption.
 Qed.
 
 (* ------------------------------------------------------------------ the loop *)
@@ -90,7 +129,7 @@ Lemma repr_wf_prop_ok : forall tab p, repr_prop tab p = true -> wf_value (snd p)
 Proof.
   intros tab [id v] Hr Hw. unfold repr_prop in Hr. cbn [fst snd] in *.
   apply andb_prop in Hr. destruct Hr as [Hin Hr]. split; [exact Hin |].
-  destruct (kind_of_id id) as [k |]; [| discriminate]. exists k. split; [reflexivity |].
+  destruct (kind_of_id id) as [k |] eqn:Ek; [| discriminate]. exists k. split; [exact Ek |].
   apply andb_prop in Hr. destruct Hr as [Hk Hu]. split; [exact Hk |]. split; [exact Hw |].
   destruct v; try exact I; [exact Hu |]. apply andb_prop in Hu. exact Hu.
 Qed.
@@ -120,7 +159,7 @@ Proof.
   intros tab l. induction l as [| [id v] l IH]; intros bs Hok Hbs fuel cursor plen rest Hsum Hfuel.
   - cbn [plist_bytes] in Hbs. inversion Hbs; subst bs. cbn [plist_len] in Hsum.
     destruct fuel; cbn [props_loop app]; replace (cursor <? plen) with false by lia; reflexivity.
-  - inversion Hok as [| p l' Hp Hl']; subst. destruct Hp as (Hin & k & Hk & Hv). cbn [fst snd] in *.
+  - inversion Hok as [| p l' Hp Hl']; subst p l'. destruct Hp as (Hin & k & Hk & Hv). cbn [fst snd] in *.
     destruct (read_value_write k v Hv) as (vb & Hvb & Hvl & Hrv).
     cbn [plist_bytes fst snd] in Hbs. rewrite Hvb in Hbs. cbn [bind] in Hbs.
     destruct (plist_bytes l) as [tl | e | t] eqn:Htl; cbn [bind] in Hbs; try discriminate.
